@@ -3,6 +3,7 @@
 package vs
 
 import (
+	"io"
 	"bytes"
 	"fmt"
 	"io/ioutil"
@@ -42,6 +43,10 @@ type Cmd struct {
 	Args []string
 	Dir  string
 	Env  []string
+	// as in os/exec: when set, the child writes there directly (Run / Start+Wait then do NOT wait
+	// for other processes that inherited the descriptors, exactly like the real package)
+	Stdout, Stderr io.Writer
+	Stdin          io.Reader
 	// ProcessState is set once the command has run; in the simulator it is the genuine
 	// state of a real process that ended the same way (exit status / killed by a signal).
 	ProcessState *os.ProcessState
@@ -147,7 +152,10 @@ func (c *Cmd) run(combined bool) ([]byte, error) {
 	cmd.Dir, cmd.Env = c.Dir, c.Env
 	var out []byte
 	var err error
-	if combined {
+	if c.Stdout != nil || c.Stderr != nil || c.Stdin != nil {
+		cmd.Stdout, cmd.Stderr, cmd.Stdin = c.Stdout, c.Stderr, c.Stdin
+		err = cmd.Run()
+	} else if combined {
 		out, err = cmd.CombinedOutput()
 	} else {
 		out, err = cmd.Output()
